@@ -473,3 +473,13 @@ Example C05_example_linked :
   m_sense (m_tr_surf ex_motion ex_entry) ex_p3 = true /\     (* the point (3, 0, 0) *)
   m_sense (m_tr_surf ex_motion ex_entry) ex_p1 = false.      (* the point (1, 0, 0) *)
 Proof. exact ex_law. Qed.
+
+(* ... and a deck over real surfaces (cell 1 = x < 0 filled with universe 1 moved by (2,0,0),
+   universe 1 = {x < 0, x > 0}) on which the linked chain runs and returns two cells *)
+Example C05_example_chain_linked :
+  trcl_phase motion wfentry m_empty m_eqb m_tr_surf 5 (map fst (s_cells ex_link_state)) ex_link_state
+    = Ok ex_l1 /\
+  fill_phase motion wfentry m_empty m_eqb m_tr_surf 5 5 false false ex_l1 = Ok ex_l2 /\
+  inline_cells motion 9 1 1 (s_cells (snd ex_l2)) = Ok ex_l3 /\
+  fst ex_l2 = [[13; 15]].
+Proof. exact ex_link_runs. Qed.
